@@ -138,6 +138,32 @@ class _Desugar(ast.NodeTransformer):
     def visit_Lambda(self, n: ast.Lambda) -> ast.AST:
         return n
 
+    # -- with contextlib.ExitStack() as S:  S.callback(f, a...) ; REST      is      try: REST  finally: f(a...)
+    #    (callbacks registered by the first statements of the block run, last registered first, however REST is left)
+    def visit_With(self, n: ast.With) -> ast.AST:
+        self.generic_visit(n)
+        if len(n.items) == 1 and isinstance(n.items[0].context_expr, ast.Call) and isinstance(n.items[0].optional_vars, ast.Name) and not n.items[0].context_expr.args:
+            fn_ = n.items[0].context_expr.func
+            nm = fn_.attr if isinstance(fn_, ast.Attribute) else (fn_.id if isinstance(fn_, ast.Name) else '')
+            if nm == 'ExitStack':
+                S = n.items[0].optional_vars.id
+                cbs: List[ast.Call] = []
+                k = 0
+                while k < len(n.body):
+                    s_ = n.body[k]
+                    if isinstance(s_, ast.Expr) and isinstance(s_.value, ast.Call) and isinstance(s_.value.func, ast.Attribute) and s_.value.func.attr == 'callback' and \
+                            isinstance(s_.value.func.value, ast.Name) and s_.value.func.value.id == S and s_.value.args:
+                        cbs.append(s_.value)
+                        k += 1
+                    else:
+                        break
+                rest = n.body[k:]
+                uses_stack = any(isinstance(x, ast.Name) and x.id == S for r_ in rest for x in ast.walk(r_))
+                if cbs and rest and not uses_stack:
+                    final = [self._loc(ast.Expr(value=ast.Call(func=c_.args[0], args=list(c_.args[1:]), keywords=list(c_.keywords))), c_) for c_ in reversed(cbs)]
+                    return self._loc(ast.Try(body=rest, handlers=[], orelse=[], finalbody=final), n)
+        return n
+
 
 _FLIP = {ast.Eq: ast.Eq, ast.NotEq: ast.NotEq, ast.Is: ast.Is, ast.IsNot: ast.IsNot, ast.Lt: ast.Gt, ast.LtE: ast.GtE, ast.Gt: ast.Lt, ast.GtE: ast.LtE}
 _COMPLEMENT = {ast.Eq: ast.NotEq, ast.NotEq: ast.Eq, ast.Is: ast.IsNot, ast.IsNot: ast.Is, ast.In: ast.NotIn, ast.NotIn: ast.In}
@@ -402,6 +428,8 @@ class Program:
         if inline:
             from .inline import Inliner
             Inliner(self).run()
+            from .alias import AliasFolder
+            AliasFolder(self).run()
 
     # ------------------------------------------------------------------ loading
     def _load_tree(self, top: str, pkgname: str, loose: bool = False) -> None:
